@@ -73,13 +73,15 @@ class Scoped:
         tail = st.pc[self.n0:]
         del st.pc[self.n0:]
         gs = [g for g in self.guards]
+        active = []          # guards pushed before the fact was learnt
         for f in tail:
             if any(f is g for g in gs):
+                active.append(f)
                 continue
             if f.get_id() in st.glob:
                 st.pc.append(f)
-            elif gs:
-                st.pc.append(z3.Implies(z3.And(gs), f))
+            elif active:
+                st.pc.append(z3.Implies(z3.And(active), f))
             else:
                 st.pc.append(f)
         self.guards = []
@@ -148,9 +150,11 @@ class EvalMixin:
         if h in ("list", "vtuple"):
             return ops.l_len(st, ref(t)) > 0
         if h == "set":
-            return ops.s_mem(st, ref(t)) != ops.EMPTY_MEM
+            x = bvarV("e")
+            return z3.Exists([x], z3.Select(ops.s_mem(st, ref(t)), x))
         if h == "dict":
-            return ops.d_has(st, ref(t)) != ops.EMPTY_MEM
+            x = bvarV("e")
+            return z3.Exists([x], z3.Select(ops.d_has(st, ref(t)), x))
         if h in ("obj", "val", "opaque", "tuple"):
             return z3.BoolVal(True)
         if h == "opt":
@@ -244,7 +248,8 @@ class EvalMixin:
             return cx.result
         if n in ("True", "False"):
             return SBool(z3.BoolVal(n == "True"))
-        if n in self.uni.obj_classes or n in self.uni.val_classes or n in self.uni.bases:
+        if n in self.uni.obj_classes or n in self.uni.val_classes or n in self.uni.bases \
+                or n in getattr(self.uni, "class_names", ()):
             return SV(VInt(z3.IntVal(self.uni.class_id(n))), K("class", n))
         raise OutOfSubset("unbound name %s at line %s" % (n, getattr(node, "lineno", "?")))
 
@@ -347,11 +352,11 @@ class EvalMixin:
             ma, mb = ops.s_mem(self.R(st, a), ref(a.t)), ops.s_mem(self.R(st, b), ref(b.t))
             x = bvarV()
             if isinstance(op, ast.BitOr):
-                m = z3.Lambda([x], z3.Or(z3.Select(ma, x), z3.Select(mb, x)))
+                m = ops.mk_array(st, x, z3.Or(z3.Select(ma, x), z3.Select(mb, x)), pats=[z3.Select(ma, x), z3.Select(mb, x)])
             elif isinstance(op, ast.BitAnd):
-                m = z3.Lambda([x], z3.And(z3.Select(ma, x), z3.Select(mb, x)))
+                m = ops.mk_array(st, x, z3.And(z3.Select(ma, x), z3.Select(mb, x)), pats=[z3.Select(ma, x), z3.Select(mb, x)])
             elif isinstance(op, ast.Sub):
-                m = z3.Lambda([x], z3.And(z3.Select(ma, x), z3.Not(z3.Select(mb, x))))
+                m = ops.mk_array(st, x, z3.And(z3.Select(ma, x), z3.Not(z3.Select(mb, x))), pats=[z3.Select(ma, x), z3.Select(mb, x)])
             else:
                 raise OutOfSubset("set op")
             return SV(VRef(ops.new_set(st, m)), a.k)
@@ -440,13 +445,13 @@ class EvalMixin:
             self.safety(st, z3.And(0 <= i, i < ops.l_len(sb, r)), "index", node)
             ek = k[1] if len(k) > 1 else ANY
             t = ops.l_get(sb, r, i)
-            assume_typed(st, t, ek, base.h)
+            ops.assume_typed_if(st, z3.And(0 <= i, i < ops.l_len(sb, r)), t, ek, base.h)
             return SV(t, ek, base.h)
         if h == "dict":
             r = ref(base.t)
             self.safety(st, z3.Select(ops.d_has(sb, r), idx.t), "key", node)
             t = z3.Select(ops.d_val(sb, r), idx.t)
-            assume_typed(st, t, k[2], base.h)
+            ops.assume_typed_if(st, z3.Select(ops.d_has(sb, r), idx.t), t, k[2], base.h)
             return SV(t, k[2], base.h)
         if h == "str":
             s = self.as_str(base)
@@ -602,7 +607,9 @@ class EvalMixin:
             # existential; left out otherwise so the same formula is not weaker as a hypothesis than as a goal
             extra = [f for f in st.pc[n0:] if not any(f is g for g in guards)]
             use_t = (universal and cx.pol > 0) or ((not universal) and cx.pol < 0)
-            allg = guards + (extra if use_t else [f for f in extra if f.get_id() not in st.glob])
+            # (definedness assumptions of partial operations inside the body - key present, index in range -
+            #  are not turned into guards: a contract is expected to be well-defined on its domain)
+            allg = guards + ([f for f in extra if f.get_id() in st.glob] if use_t else [])
         g = z3.And(allg) if allg else z3.BoolVal(True)
         if universal:
             return SBool(z3.ForAll(bvs, z3.Implies(g, body)))
@@ -657,7 +664,7 @@ class EvalMixin:
                     st.pc.append(f)
             elt = self.ev(node.elt, st, cx)
         x = bvarV("m")
-        mem = z3.Lambda([x], z3.Exists(bvs, z3.And(guards + [elt.t == x])))
+        mem = ops.mk_array(st, x, z3.Exists(bvs, z3.And(guards + [elt.t == x])))
         return SV(VRef(ops.new_set(st, mem)), K("set", elt.k))
 
     def ev_GeneratorExp(self, node, st, cx):
